@@ -18,6 +18,17 @@ Proof. unfold Disjoint. rewrite !Leo_R. tauto. Qed.
 Lemma Headway_R (h : R) (x y : occR) : Headway h x y <-> exists c, o_ce x = Some c /\ c + h <= o_in y.
 Proof. unfold Headway. numR. split; intros (c & E & H); exists c; split; auto; apply Rleb_true; auto. Qed.
 
+(* exit end of a shared link: once the follower's front has left it (a real exit: strictly before the
+   follower's own release, or not yet released) the leader's tail had left it a headway earlier *)
+Lemma ExitHeadway_R (h : R) (x y : occR) : ExitHeadway h x y <->
+  forall ya, o_ax y = Some ya -> (forall yo, o_out y = Some yo -> ya < yo) ->
+    exists u, o_out x = Some u /\ u + h <= ya.
+Proof.
+  unfold ExitHeadway. numR. split; intros H ya E Hy.
+  - destruct (H ya E) as (u & Eu & Hu); [intros yo Eo; apply Rltb_true; auto|]. exists u; split; auto. apply Rleb_true; auto.
+  - destruct (H ya E) as (u & Eu & Hu); [intros yo Eo; apply Rltb_true; auto|]. exists u; split; auto. apply Rleb_true; auto.
+Qed.
+
 (* ---- a timed walk is never faster than the free-running durations of its steps ---- *)
 Notation rnodeR := (rnode (F:=R)).
 Definition durR (est : list rnodeR) (i j : nat) : R := match step_dur est i j with Some d => d | None => 0 end.
